@@ -30,7 +30,12 @@ Next == /\ k < Len(Cases) /\ k' = k + 1
         /\ LET e == Cases[k + 1] IN
            IF e.o.op = "Reset" THEN vers' = [i \in DOMAIN e.all |-> Ver(e.all[i])] /\ bad' = FALSE
            ELSE IF bad THEN UNCHANGED <<vers, bad>>
-           ELSE IF e.o.op = "Drop" THEN vers' = Remove(vers, e.o.v + 1) /\ bad' = FALSE
+           ELSE IF e.o.op = "Drop"
+           THEN /\ vers' = Remove(vers, e.o.v + 1)
+                /\ bad' = (~(/\ Len(e.all) = Len(vers) - 1 /\ Len(e.allit) = Len(vers) - 1
+                             /\ \A i \in 1..(Len(vers) - 1) : /\ Norm(e.all[i]) = Remove(vers, e.o.v + 1)[i].seq
+                                                                /\ Norm(e.allit[i]) = Remove(vers, e.o.v + 1)[i].seq)
+                           /\ PrintT(<<"BAD", k + 1, "Drop", FALSE, "remaining versions read differently">>))
            ELSE IF e.o.v >= Len(vers) THEN UNCHANGED vers /\ bad' = PrintT(<<"BAD", k + 1, e.o.op, FALSE, "no such version">>)
            ELSE /\ vers' = After(vers, e)
                 /\ bad' = (~StepOK(vers, e) /\ PrintT(<<"BAD", k + 1, e.o.op, Want(vers, e).ok, ToJson(Want(vers, e))>>) /\ ~e.probe)
